@@ -5,6 +5,7 @@ import (
 	"bytes"
 	"encoding/json"
 	"fmt"
+	"io"
 	"reflect"
 	"sort"
 	"strings"
@@ -276,6 +277,18 @@ func keyOf(name string) string {
 	return name
 }
 
+// heldOther / heldOther2: values of other types converted between obtaining a paragraph and using it.
+type heldOther struct {
+	Name     string
+	Priority string
+	Tag      string
+}
+
+type heldOther2 struct {
+	control.Paragraph
+	Zeta string
+}
+
 // check: marshal does not panic; unmarshal of the text reproduces the value; omission / required / skip rules.
 func check(scen string, in In) []*mc.Violation {
 	feats := features(in)
@@ -338,6 +351,18 @@ func check(scen string, in In) []*mc.Violation {
 		cp.WriteTo(&b2)
 		if b2.String() != text {
 			vs = append(vs, mc.V(scen, "convert-to-paragraph-agrees-with-marshal", in, fmt.Sprintf("%q", text), fmt.Sprintf("%q", b2.String()), feats...))
+		}
+		// the paragraph is the caller's: converting and marshalling other values afterwards does not rewrite it
+		mc.Guard(func() {
+			for _, other := range []interface{}{&heldOther{"n", "p", "q"}, &heldOther2{Zeta: "z"}, orig} {
+				control.ConvertToParagraph(other)
+				control.Marshal(io.Discard, other)
+			}
+		})
+		var b3 bytes.Buffer
+		cp.WriteTo(&b3)
+		if b3.String() != b2.String() {
+			vs = append(vs, mc.V(scen, "convert-to-paragraph-agrees-with-marshal", in, fmt.Sprintf("%q", b2.String()), fmt.Sprintf("the paragraph obtained earlier reads, after other values were converted: %q", b3.String()), feats...))
 		}
 		viaPara := reflect.New(ov.Type())
 		if p, msg := mc.Guard(func() { err = control.UnpackFromParagraph(*para, viaPara.Interface()) }); p {
